@@ -62,6 +62,7 @@ def run(ctx):
             cands.add(sg.mutate(s))
             cands.add(s.swapcase())
             cands.add(s.lower())
+            cands.update(lib.partner_variants(s, 3))
             if k % 3 == 0:
                 cands.add(sg.mutate(sg.mutate(s)))
         bad = None
